@@ -33,6 +33,8 @@ def _vmap_call(t: T):
 
 def _role_of(arg: T):
     """params[KEY][IDX] -> (KEY, end, types) where IDX derives from comp_edges[cond][end]."""
+    while arg.op in ("mcall", "call") and arg.name in ("asarray", "array") and arg.args:
+        arg = arg.args[-1]  # a conversion of the gathered values is not a different quantity
     if not (arg.op == "sub" and arg.args[0].op == "sub"):
         return None
     key = arg.args[0].args[1]
